@@ -202,7 +202,54 @@ class DirtyState(Analysis):
             owner = _owner_of_det_list(tgt.value) or _owner_of_det_list(tgt)
             if owner is not None:
                 return self._dirty(state, owner)
+            # `lst[:] = saved` / `lst[i] = d` through a local that may hold a
+            # determinant list: a loop target over (or a local bound to) something
+            # built from `.determinants`
+            if isinstance(tgt.value, ast.Name):
+                owners = self._det_list_owners(tgt.value.id)
+                for o in sorted(owners):
+                    state = state | {'*'} if o == '*' else self._dirty(state, o)
         return state
+
+    def _det_list_owners(self, name):
+        """Groups whose determinant lists the local ``name`` may hold: the local
+        is bound to, or is a loop target over, something built from
+        ``X.determinants``.  X itself when it is a plain name or one of a literal
+        tuple of names a comprehension runs over, '*' otherwise."""
+        def owners_in(expr):
+            res = set()
+            comp_vars = {}
+            for n in ast.walk(expr):
+                if isinstance(n, ast.comprehension) and isinstance(n.target, ast.Name):
+                    if isinstance(n.iter, (ast.Tuple, ast.List)) and all(
+                            isinstance(e, ast.Name) for e in n.iter.elts):
+                        comp_vars[n.target.id] = {e.id for e in n.iter.elts}
+                    else:
+                        comp_vars[n.target.id] = {'*'}
+            for n in ast.walk(expr):
+                if isinstance(n, ast.Attribute) and n.attr == 'determinants':
+                    o = norm(n.value)
+                    res |= comp_vars.get(o, {o})
+            return res
+
+        def source_of(nm, depth=0):
+            res = set()
+            if depth > 3:
+                return res
+            for node in walk_no_nested(self.fn):
+                if isinstance(node, ast.Assign) and any(
+                        isinstance(t, ast.Name) and t.id == nm for tg in node.targets for t in ast.walk(tg)):
+                    res |= owners_in(node.value)
+                    if isinstance(node.value, ast.Name):
+                        res |= source_of(node.value.id, depth + 1)
+                if isinstance(node, ast.For) and any(
+                        isinstance(t, ast.Name) and t.id == nm for t in ast.walk(node.target)):
+                    res |= owners_in(node.iter)
+                    for sub in ast.walk(node.iter):
+                        if isinstance(sub, ast.Name) and sub.id != nm:
+                            res |= source_of(sub.id, depth + 1)
+            return res
+        return source_of(name)
 
     def _looks_like_determinant(self, name):
         low = name.lower()
